@@ -8,6 +8,7 @@ import (
 	"math/big"
 	"math/rand"
 	"regexp"
+	"sort"
 	"strings"
 
 	"verif/core"
@@ -572,8 +573,8 @@ func checkC15(c *core.Ctx) {
 
 	// ---------- CLI level: a chord at the end of a chain of extends is described with every inherited note
 	// (chains of 9 .. 40 chords, one attribute each), and an attribute file may arrive through a pipe
-	c.Stream("chain", 12, func(i int, r *rand.Rand) {
-		depth := 9 + i*3
+	c.Stream("chain", 20, func(i int, r *rand.Rand) {
+		depth := 9 + i*2
 		var as []userAttr
 		var cs []userChord
 		for k := 0; k < depth; k++ {
@@ -585,28 +586,52 @@ func checkC15(c *core.Ctx) {
 			cs = append(cs, uc)
 		}
 		root := roots[(i*4)%len(roots)]
-		args := []string{"info", "chord", "describe", "-t", root.String() + "_zrun" + fmt.Sprint(depth-1), "--chord", c.Scratch.File("chain-chord.yml", chordsYAML(cs))}
+		// the order of the definitions does not matter (a dictionary is a set of definitions): parents first,
+		// children first, sorted by name, or the younger half in a file given before the file of the older half;
+		// several files in one flag value, separated by commas, or one flag per file
+		layout := []string{"parents-first", "children-first", "sorted-by-name", "two-files-children-first", "two-files-comma"}[(i/2)%5]
+		ordered := append([]userChord(nil), cs...)
+		switch layout {
+		case "children-first":
+			for a, b := 0, len(ordered)-1; a < b; a, b = a+1, b-1 {
+				ordered[a], ordered[b] = ordered[b], ordered[a]
+			}
+		case "sorted-by-name":
+			sort.Slice(ordered, func(a, b int) bool { return ordered[a].Name < ordered[b].Name })
+		}
+		args := []string{"info", "chord", "describe", "-t", root.String() + "_zrun" + fmt.Sprint(depth-1)}
+		switch layout {
+		case "two-files-children-first":
+			args = append(args, "--chord", c.Scratch.File("chain-young.yml", chordsYAML(cs[depth/2:])), "--chord", c.Scratch.File("chain-old.yml", chordsYAML(cs[:depth/2])))
+		case "two-files-comma":
+			args = append(args, "--chord", c.Scratch.File("chain-young.yml", chordsYAML(cs[depth/2:]))+","+c.Scratch.File("chain-old.yml", chordsYAML(cs[:depth/2])))
+		default:
+			args = append(args, "--chord", c.Scratch.File("chain-chord.yml", chordsYAML(ordered)))
+		}
 		var stdin []byte
-		if i%2 == 0 {
-			args = append(args, "--attr", c.Scratch.File("chain-attr.yml", attrsYAML(as)))
-		} else {
+		switch {
+		case i%2 == 1:
 			args = append(args, "--attr", "/dev/stdin")
 			stdin = attrsYAML(as)
+		case layout == "two-files-comma":
+			args = append(args, "--attr="+c.Scratch.File("chain-attr1.yml", attrsYAML(as[depth/3:]))+","+c.Scratch.File("chain-attr2.yml", attrsYAML(as[:depth/3])))
+		default:
+			args = append(args, "--attr", c.Scratch.File("chain-attr.yml", attrsYAML(as)))
 		}
 		res := run(c, stdin, args...)
 		c.Eval(1)
 		if infra(c, res) {
 			return
 		}
-		sig := fmt.Sprintf("chain:%d", depth)
+		sig := fmt.Sprintf("chain:%d:%s", depth, layout)
 		if a := abnormal(res); a != "" || !res.OK() {
-			c.Violate("chain", i, sig+":failed", fmt.Sprintf("info chord describe of the last chord of a chain of %d extends fails %s", depth, a), obs(res))
+			c.Violate("chain", i, sig+":failed", fmt.Sprintf("info chord describe of the last chord of a chain of %d extends (%s) fails %s", depth, layout, a), obs(res))
 			return
 		}
 		m, err := yamlMap(res.Stdout)
 		got := asList(m["attributes"])
 		if err != nil || len(got) != depth {
-			c.Violate("chain", i, sig+":count", fmt.Sprintf("the last chord of a chain of %d extends (one attribute each) is described with %d notes (err=%v)", depth, len(got), err), obs(res))
+			c.Violate("chain", i, sig+":count", fmt.Sprintf("the last chord of a chain of %d extends (one attribute each, %s) is described with %d notes (err=%v)", depth, layout, len(got), err), obs(res))
 			return
 		}
 		for k, a := range got {
@@ -621,6 +646,74 @@ func checkC15(c *core.Ctx) {
 				c.Violate("chain", i, sig+":note", strings.Join(probs, "; "), obs(res))
 				return
 			}
+		}
+		c.Nontrivial(sig)
+	})
+
+	bigDictionary(c, roots)
+}
+
+// bigDictionary checks that a user dictionary of several megabytes is read to its end: every attribute around each
+// MiB mark and the last one are described with the interval of their definition, and all of them are listed.
+func bigDictionary(c *core.Ctx, roots []theory.Note) {
+	const n = 190000
+	degrees := []string{"b13", "#11", "9", "bb7", "#5", "b3", "14", "bbb6"}
+	var b strings.Builder
+	// the entries that lie across a multiple of 1 MiB, and the first and the last
+	probe := []int{0, n - 1}
+	for k := 0; k < n; k++ {
+		before := b.Len()
+		fmt.Fprintf(&b, "- name: Zbig%d\n  degree: %q\n", k, degrees[k%len(degrees)])
+		if before>>20 != b.Len()>>20 {
+			probe = append(probe, k, k+1)
+		}
+	}
+	file := c.Scratch.File("big-attr.yml", []byte(b.String()))
+	c.Extra("big_dictionary_bytes", b.Len())
+	c.Stream("bigdict", len(probe)+1, func(i int, _ *rand.Rand) {
+		if i == len(probe) {
+			res := run(c, nil, "info", "attr", "list", "--attr", file)
+			c.Eval(1)
+			if infra(c, res) {
+				return
+			}
+			if a := abnormal(res); a != "" || !res.OK() {
+				c.Violate("bigdict", i, "bigdict:list-failed", fmt.Sprintf("info attr list with a dictionary of %d attributes (%d bytes) fails %s", n, b.Len(), a), obs(res))
+				return
+			}
+			if got := bytes.Count(res.Stdout, []byte("- name: Zbig")); got != n {
+				c.Violate("bigdict", i, "bigdict:list-count", fmt.Sprintf("info attr list with a dictionary of %d attributes (%d bytes) lists %d of them", n, b.Len(), got), nil)
+				return
+			}
+			c.Nontrivial("bigdict:list")
+			return
+		}
+		k := probe[i]
+		if k >= n {
+			return
+		}
+		root := roots[(k*7)%len(roots)]
+		name, deg := fmt.Sprintf("Zbig%d", k), degrees[k%len(degrees)]
+		res := run(c, nil, "info", "attr", "describe", "-t", name, "-r", root.String(), "--attr", file)
+		c.Eval(1)
+		if infra(c, res) {
+			return
+		}
+		sig := fmt.Sprintf("bigdict:%d", i)
+		if a := abnormal(res); a != "" || !res.OK() {
+			c.Violate("bigdict", i, sig+":failed", fmt.Sprintf("attribute %d of %d in a dictionary of %d bytes: info attr describe -t %s fails %s", k, n, b.Len(), name, a), obs(res))
+			return
+		}
+		m, err := yamlMap(res.Stdout)
+		iv, _ := theory.ParseNotation(deg)
+		want, _ := theory.Size(iv.N, iv.Q)
+		if err != nil || mustInt(m["semitone"]) != want {
+			c.Violate("bigdict", i, sig+":size", fmt.Sprintf("attribute %d of %d in a dictionary of %d bytes is defined as %s (%d semitones) and described with %d (err=%v)", k, n, b.Len(), deg, want, mustInt(m["semitone"]), err), obs(res))
+			return
+		}
+		if probs := describedNoteProblems(m, root, false); len(probs) > 0 {
+			c.Violate("bigdict", i, sig+":note", strings.Join(probs, "; "), obs(res))
+			return
 		}
 		c.Nontrivial(sig)
 	})
